@@ -482,7 +482,7 @@ Section SessInv.
 
   Theorem step_sess_inv w ev w' o : WP w -> step w ev = Ok (w', o) -> WP w'.
   Proof.
-    intros HW. destruct ev as [peer seq m e|peer seq m e|seid items e|peer seq|peer seq]; cbn [step].
+    intros HW. destruct ev as [peer seq m e|peer seq m e|seid items e|peer seq|peer seq|seid items e]; cbn [step].
     - destruct (is_request m); [apply recv_request_P | apply recv_response_P]; exact HW.
     - destruct (is_request m); [apply recv_request_abort_P; exact HW|].
       destruct (klookup (peer, seq) (w_tx w)); intros H; inversion H; subst; exact HW.
@@ -490,6 +490,8 @@ Section SessInv.
     - unfold timeout_tx. destruct (klookup (peer, seq) (w_tx w)) as [t|]; [|intros H; inversion H; subst; exact HW].
       destruct (tx_count t <? w_maxretrans w); intros H; inversion H; subst; exact HW.
     - intros H. inversion H; subst. exact HW.
+    - destruct (serve_report w seid items) as [[w1 o1]|f] eqn:Es; cbn [write_fails]; [|discriminate].
+      intros H. inversion H; subst. eapply serve_report_P; eauto.
   Qed.
 
   Theorem reachable_sess_inv w : reachable w -> forall lid s, live w lid s -> P s.
